@@ -291,6 +291,14 @@ Fixpoint check_at (req : list N) (l : list N) (i : nat) : res bool :=
   | r :: rs => do x <- idx l i; if x =? r then check_at rs l (S i) else Ok false
   end.
 
+(* for i := range allowed { if off+i >= len(l) || l[off+i] != allowed[i] { return false } } *)
+Fixpoint check_at_len (req : list N) (l : list N) (i : nat) : res bool :=
+  match req with
+  | [] => Ok true
+  | r :: rs => if (length l <=? i)%nat then Ok false else
+               do x <- idx l i; if x =? r then check_at_len rs l (S i) else Ok false
+  end.
+
 Definition ff_exts : list N := [23; 65281; 10; 11; 35; 16; 5; 13].
 Definition ff_ciphers : list N :=
   [4865; 4867; 4866; 49195; 49199; 52393; 52392; 49196; 49200; 49162; 49161; 49171; 49172; 51; 57; 47; 53; 10].
@@ -301,7 +309,7 @@ Definition looks_like_firefox (inf : info) : res bool :=
   if (length curves <? 4)%nat then Ok false else
   do ok <- check_at [29; 23; 24; 25] curves 0;
   if negb ok then Ok false else
-  do ok2 <- (if (4 <? length curves)%nat then check_at [256; 257] curves 4 else Ok true);
+  do ok2 <- (if (4 <? length curves)%nat then check_at_len [256; 257] curves 4 else Ok true);
   if negb ok2 then Ok false else
   if has_grease (i_ciphers inf) then Ok false else
   Ok (assert_presence_and_ordering ff_ciphers (i_ciphers inf) false).
@@ -438,11 +446,12 @@ Definition conn_read (c : conn) (seg : bytes) : res conn :=
   if c_read_hello c then Ok c else
   let buf := c_buf c ++ seg in
   if (length buf <? 5)%nat then Ok (mkConn false buf (c_recorded c)) else
-  (* io.ReadFull(c.buf, hdr): the 5 header bytes are CONSUMED from the buffer *)
-  do hdr <- slice buf 0 5; do buf5 <- slice_from buf 5;
+  (* hdr := c.buf.Bytes()[:5]: the 5 header bytes are PEEKED and stay in the buffer *)
+  do hdr <- slice buf 0 5;
   do h3 <- idx hdr 3; do h4 <- idx hdr 4;
   let len := N.to_nat (u16 h3 h4) in
-  if (length buf5 <? len)%nat then Ok (mkConn false buf5 (c_recorded c)) else
+  if (length buf <? 5 + len)%nat then Ok (mkConn false buf (c_recorded c)) else
+  do buf5 <- slice_from buf 5;                                    (* c.buf.Next(5) *)
   do hello <- slice buf5 0 len; do rest <- slice_from buf5 len;
   do inf <- parse_raw_client_hello hello;
   Ok (mkConn true rest (Some inf)).
@@ -461,15 +470,13 @@ Fixpoint cut (wire : bytes) (sizes : list nat) : list bytes :=
   | n :: r => firstn n wire :: cut (skipn n wire) r
   end.
 
-(* cumulative byte counts after each read *)
-Fixpoint cuts_from (acc : nat) (segs : list bytes) : list nat :=
-  match segs with
-  | [] => []
-  | s :: r => (acc + length s)%nat :: cuts_from (acc + length s)%nat r
-  end.
-Definition cuts (segs : list bytes) : list nat := cuts_from 0 segs.
-(* no read ends after the record header is complete and before the record body is *)
-Definition safe_cut (bodylen : nat) (c : nat) : bool := (c <? 5)%nat || (5 + bodylen <=? c)%nat.
+(* what is recorded, as a function of the bytes delivered so far only (specification):
+   nothing until the 5-byte header and the body it announces are there, then the parse of the body *)
+Definition recorded_of (w : bytes) : option info :=
+  if (length w <? 5)%nat then None else
+  let len := N.to_nat (u16 (nth 3 w 0) (nth 4 w 0)) in
+  if (length w <? 5 + len)%nat then None else
+  match parse_raw_client_hello (firstn len (skipn 5 w)) with Ok i => Some i | Panic => None end.
 
 (* ------------------------------------------------------------------------------------------ *)
 (* push: parseLinkHeader + servePreloadLinks                                                   *)
@@ -504,6 +511,7 @@ Definition parse_param (params : list (bytes * bytes)) (param : bytes) : list (b
 Definition parse_link (link : bytes) : res (option (bytes * list (bytes * bytes))) :=
   match index_of [LT] link, index_of [GT] link with
   | Some li, Some ri =>
+    if (ri <? li)%nat then Ok None else      (* li == -1 || ri == -1 || ri < li: continue *)
     do u <- slice link (li + 1) ri;          (* link[li+1 : ri] *)
     do rest <- slice_from link (ri + 1);
     Ok (Some (trim_space u, fold_left parse_param (split SEMI (trim_space rest)) []))
@@ -546,7 +554,8 @@ Fixpoint serve_preload_links (values : list bytes) (n : nat) (failat : option na
     if st then Ok p else do q <- serve_preload_links r n' failat; Ok (p ++ q)
   end.
 
-(* class of the input that makes link[li+1:ri] invalid: '>' occurs before the first '<' *)
+(* class of the input that would make link[li+1:ri] invalid: '>' occurs before the first '<'
+   (such a piece is skipped) *)
 Definition gt_before_lt (link : bytes) : bool :=
   match index_of [LT] link, index_of [GT] link with
   | Some li, Some ri => (ri <? li)%nat
@@ -605,11 +614,15 @@ Definition stdout_of (rs : list frec) : bytes :=
   flat_map (fun r => if r_type r =? 7 then [] else r_content r) rs.
 Definition end_request : bytes := [1; 3; 0; 1; 0; 8; 0; 0; 0; 0; 0; 0; 0; 0; 0; 0].
 
-(* writePairs: the value is cut to maxWrite-8-len(k) bytes when 8+len(k)+len(v) > maxWrite;
-   result = length of the value sent *)
+(* writePairs: the value is cut to maxWrite-8-len(k) bytes (to nothing when the name leaves no
+   room) when the encoded pair (each length takes 1 or 4 bytes) exceeds maxWrite; result = length
+   of the value sent *)
+Definition size_len (n : Z) : Z := if (127 <? n)%Z then 4%Z else 1%Z.     (* encodeSize's return *)
+Definition enc_pair_len (klen vlen : Z) : Z := (size_len klen + size_len vlen + klen + vlen)%Z.
 Definition write_pair_len (klen vlen : Z) : res Z :=
-  if (65500 <? 8 + klen + vlen)%Z then
-    let vl := (65500 - 8 - klen)%Z in
+  if (65500 <? enc_pair_len klen vlen)%Z then
+    let vl0 := (65500 - 8 - klen)%Z in
+    let vl := if (vl0 <? 0)%Z then 0%Z else vl0 in               (* if vl < 0 { vl = 0 } *)
     if (vl <? 0)%Z || (vlen <? vl)%Z then Panic else Ok vl        (* v = v[:vl] *)
   else Ok vlen.
 
@@ -634,28 +647,34 @@ Definition atoi (s : bytes) : option Z :=
                      if (v' <? -9223372036854775808)%Z || (9223372036854775807 <? v')%Z then None else Some v'
          end
   end.
-(* outcome of serving a backend response whose Status header value is [v] (as delivered by the
-   MIME reader: trimmed): no header = 200; otherwise the first space-separated token is parsed.
-   Ok (Some code) = header written with that code, Ok None = 502 (unparsable), Panic *)
-Definition fcgi_status (v : bytes) : res (option Z) :=
+(* FCGIClient.Request on a backend response whose Status header value is [v] (as delivered by the
+   MIME reader: trimmed): no header = 200; otherwise the first space-separated token is parsed and
+   must be a code in 100..999.  None = Request returns an error (the handler answers 502) *)
+Definition fcgi_status_code (v : bytes) : option Z :=
   match v with
-  | [] => Ok (Some 200%Z)
+  | [] => Some 200%Z
   | _ =>
     let tok := match index_of [32] v with Some i => firstn i v | None => v end in
     match atoi tok with
-    | None => Ok None
-    | Some c => if (c <? 100)%Z || (999 <? c)%Z then Panic else Ok (Some c)
+    | None => None
+    | Some c => if (c <? 100)%Z || (999 <? c)%Z then None else Some c
     end
   end.
-
-(* Handler.ServeHTTP: !h.exists(fpath) || fpath[len(fpath)-1] == '/' || HasSuffix(lower fpath, lower ext)
-   (short-circuit: the index expression is only evaluated when the file exists) *)
-Definition fcgi_path_gate (fpath : bytes) (file_exists suffix_ok : bool) : res bool :=
-  if negb file_exists then Ok true else
-  match length fpath with
-  | O => Panic                                   (* fpath[-1] *)
-  | S k => do c <- idx fpath k; Ok ((c =? 47) || suffix_ok)
+(* net/http ResponseWriter.WriteHeader (checkWriteHeaderCode): panics outside 100..999 *)
+Definition write_header (c : Z) : res Z := if (c <? 100)%Z || (999 <? c)%Z then Panic else Ok c.
+(* outcome of serving: Ok (Some code) = header written with that code, Ok None = 502, Panic *)
+Definition fcgi_status (v : bytes) : res (option Z) :=
+  match fcgi_status_code v with
+  | None => Ok None
+  | Some c => do c' <- write_header c; Ok (Some c')
   end.
+
+(* Handler.ServeHTTP: !h.exists(fpath) || strings.HasSuffix(fpath, "/") || HasSuffix(lower fpath, lower ext)
+   (no index expression is left; the result type is kept for the correspondence cases) *)
+Definition ends_with_slash (fpath : bytes) : bool :=
+  match rev fpath with c :: _ => c =? 47 | [] => false end.
+Definition fcgi_path_gate (fpath : bytes) (file_exists suffix_ok : bool) : res bool :=
+  if negb file_exists then Ok true else Ok (ends_with_slash fpath || suffix_ok).
 
 (* fpath = strings.TrimRight(r.URL.Path, " .") *)
 Fixpoint drop_while (f : N -> bool) (s : bytes) : bytes :=
@@ -853,7 +872,7 @@ Definition judge (c : case) : N :=
            if (5 + len <=? length delivered)%nat
            then oinfo_beq orec (Some odirect) &&
                 oinfo_beq (res_oinfo (parse_raw_client_hello (firstn len (skipn 5 wire)))) (Some odirect)
-           else true
+           else match orec with None => true | Some _ => false end
          else match orec with None => true | Some _ => false end) in
       verdict agree spec
   | CLink values failat op obs =>
@@ -882,15 +901,20 @@ Definition judge (c : case) : N :=
                    | Panic => op
                    | Ok l => negb op && (l =? ov)%Z
                    end in
-      verdict agree (negb op && (ov <=? vlen)%Z && ((8 + klen + vlen <=? 65500)%Z || (8 + klen + ov =? 65500)%Z)
-                     && ((65500 <? 8 + klen + vlen)%Z || (ov =? vlen)%Z))
+      (* no panic; a pair that fits one 65500-byte record arrives whole; otherwise the value is cut
+         so that 8+len(k)+len(v') is the record size, or to nothing when the name leaves no room *)
+      let fits := (enc_pair_len klen vlen <=? 65500)%Z in
+      verdict agree (negb op && (ov <=? vlen)%Z &&
+                     (fits || (8 + klen + ov =? 65500)%Z || ((65492 <? klen)%Z && (ov =? 0)%Z))
+                     && (negb fits || (ov =? vlen)%Z))
   | CStatus tok obs ocode =>
       let agree := match fcgi_status tok with
                    | Ok (Some c) => (obs =? 0) && (c =? ocode)%Z
                    | Ok None => obs =? 1
                    | Panic => obs =? 2
                    end in
-      verdict agree (negb (obs =? 2))
+      (* no panic, and a header is only ever written with a code WriteHeader accepts *)
+      verdict agree (negb (obs =? 2) && (negb (obs =? 0) || ((100 <=? ocode)%Z && (ocode <=? 999)%Z)))
   | CGate path ex op =>
       verdict (Bool.eqb (is_panic (fcgi_path_gate (fcgi_fpath path) ex true)) op) (negb op)
   | CReplace tmpl env empty op obs =>
@@ -901,16 +925,13 @@ Definition judge (c : case) : N :=
       verdict agree (negb op)
   | CTls wire sizes ok orec odirect =>
       let segs := cut wire (sizes ++ [length wire]) in
-      let len := N.to_nat (u16 (nth 3 wire 0) (nth 4 wire 0)) in
-      (* network timing may merge writes (never split them), which keeps safe segmentations safe:
-         the model is compared on those only *)
+      (* network timing may merge the client's writes: what the model records does not depend on
+         the segmentation (C19_hello_info_segmentation_independent), so it is compared always *)
       let agree :=
-        if forallb (safe_cut len) (cuts segs) then
-          match conn_run conn0 segs with
-          | Ok st => oinfo_beq (c_recorded st) orec
-          | Panic => false
-          end
-        else true in
+        match conn_run conn0 segs with
+        | Ok st => oinfo_beq (c_recorded st) orec
+        | Panic => false
+        end in
       verdict agree (ok && oinfo_beq orec (Some odirect))
   | CTotal _ op => verdict true (negb op)
   end.
